@@ -289,3 +289,28 @@ pub fn from_utf8_ascii_stub(v: &[u8]) -> Result<&str, std::str::Utf8Error> {
 pub fn ascii_or_never_valid(b: u8) -> bool {
     b < 0x80 || b >= 0xf8
 }
+
+// ------------------------------------------------------------- async ----
+/// Minimal executor: polls the future with a no-op waker. The futures driven here
+/// run over in-memory readers/writers (tokio's `impl AsyncWrite for Vec<u8>`,
+/// `impl AsyncRead for &[u8]`), which never return Pending; the poll bound makes a
+/// Pending an explicit failure instead of a hang.
+pub fn block_on_ready<F: std::future::Future>(f: F) -> F::Output {
+    use std::task::{Context, Poll, RawWaker, RawWakerVTable, Waker};
+    fn noop(_: *const ()) {}
+    fn clone(p: *const ()) -> RawWaker {
+        RawWaker::new(p, &VTABLE)
+    }
+    static VTABLE: RawWakerVTable = RawWakerVTable::new(clone, noop, noop, noop);
+    let waker = unsafe { Waker::from_raw(RawWaker::new(std::ptr::null(), &VTABLE)) };
+    let mut cx = Context::from_waker(&waker);
+    let mut f = std::pin::pin!(f);
+    let mut polls = 0;
+    loop {
+        if let Poll::Ready(v) = f.as_mut().poll(&mut cx) {
+            return v;
+        }
+        polls += 1;
+        assert!(polls < 3, "in-memory async I/O returned Pending");
+    }
+}
